@@ -167,16 +167,20 @@ partial def loop (h : IO.FS.Stream) (d : DS) : IO Unit := do
     | none => IO.println "bad-op"; loop h { d with dead := true }
     | some (g, ow) =>
       let dial := Drv.field cfg "dial" == some "1"
+      let dialNow := Drv.field cfg "dial" == some "2"
       -- open callback: the calls run before registration; DialAsync: addDialer first, then the connect
       -- completes (EPOLLOUT) and the calls run inside the connected callback
-      let mut d : DS := { g, s := if dial then evTakeOp g (registerDialOp g {}) true false false [] else {} }
+      -- dial=2: the connect finished at once: addDialer's registration first, then the calls (the callback runs
+      -- on its own goroutine), no connect event
+      let mut d : DS := { g, s := if dial then evTakeOp g (registerDialOp g {}) true false false []
+                                  else if dialNow then registerDialNowOp g {} else {} }
       let mut rs : List String := []
       for c in ow do
         let (s, r) := doCall g d.s c
         rs := rs ++ [showRet r]
         let (d', _) := observe d s
         d := d'
-      let (d', str) := observe { d with nctl := 0 } (if dial then teardown (evEnd g d.s) else registerOp g d.s)
+      let (d', str) := observe { d with nctl := 0 } (if dial then teardown (evEnd g d.s) else if dialNow then d.s else registerOp g d.s)
       if d'.s.hung then IO.println hungLine; loop h { d' with dead := true }
       else IO.println s!"R ow={String.intercalate ";" rs} {str}"; loop h d'
   | "O" :: rest =>
